@@ -11,6 +11,7 @@
 #define TS 2
 #define VF_INPUTS(X) X(unsigned char, n, ) X(unsigned char, key, [K + 1][TS + 1])
 #include "vf.h"
+#include "vf_str.h"
 #include "cJSON_Utils.c"
 
 static int lower(int c) { return (c >= 'A' && c <= 'Z') ? c + 32 : c; }
